@@ -31,7 +31,7 @@ type Header struct {
 
 var (
 	headerNameRegex = regexp.MustCompile(`^[A-Za-z0-9-]+$`)
-	headerLineRegex = regexp.MustCompile(`^([A-Za-z0-9-]+):\s*(.*)\r?\n?$`)
+	headerLineRegex = regexp.MustCompile(`^([A-Za-z0-9-]+):\s*([^\r\n]*)$`)
 )
 
 // ParseHeader supports the following syntax:
@@ -42,6 +42,9 @@ var (
 // - "-<name>*" to remove a header by prefix.
 func ParseHeader(val string) (Header, error) {
 	var h Header
+
+	// A trailing line terminator is not part of the rule.
+	val = strings.TrimSuffix(strings.TrimSuffix(val, "\n"), "\r")
 
 	if strings.HasPrefix(val, "-") { //nolint
 		if strings.HasSuffix(val, "*") {
